@@ -242,6 +242,43 @@ def expand_ell(ix, rank):
     return list(ix[:pos]) + [("slice", None, None, None)] * max(0, rank - used) + [i for i in ix[pos + 1:] if i[0] != "ell"]
 
 
+def oob_on_empty(shape, ix):
+    """torch skips the bounds check of an index tensor when the result has no element (an empty slice
+    elsewhere in the index): `zeros(4, 1)[1:1, [3]]` is accepted.  The Lean spec rejects every
+    out-of-range entry, so such indices are outside the spec (documented gap); the streams that
+    compare the model with real code re-draw them."""
+    rank = len(shape)
+    cursor, oob = 0, False
+    for it in expand_ell(ix, rank):
+        if it[0] == "none":
+            continue
+        if it[0] == "mask":
+            cursor += len(it[1])
+            continue
+        if it[0] == "tens" and cursor < rank:
+            d = shape[cursor]
+            if any(not (-d <= v < d) for v in it[3]):
+                oob = True
+        cursor += 1
+    if not oob:
+        return False
+    try:
+        y = torch.zeros(tuple(shape))[index_py(ix)]
+    except Exception:  # noqa: BLE001
+        return False
+    return y.numel() == 0
+
+
+def gen_index_spec(rng, shape, drop_ell=False, **kw):
+    """`gen_index` restricted to the domain of the Lean spec (see `oob_on_empty`)"""
+    while True:
+        ix = gen_index(rng, shape, **kw)
+        if drop_ell:
+            ix = [i for i in ix if i[0] != "ell"]
+        if not oob_on_empty(shape, ix):
+            return ix
+
+
 def ix_kinds(ix):
     return "+".join(sorted({i[0] if i[0] != "tens" else "tens" + str(len(i[2])) for i in ix})) or "empty"
 
